@@ -59,14 +59,14 @@ func SortStrings(a []string) {
 }
 
 var LeafKinds = []string{
-	"new", "newf", "assertf", "unimpl", "unimplf", "stleaf", "domnew", "goerr", "sentinel", "pkgnew",
+	"new", "newf", "newf0", "assertf", "assertf0", "unimpl", "unimplf", "stleaf", "domnew", "goerr", "sentinel", "pkgnew",
 	"grpcstatus", "gogostatus", "addrerr", "dnsleaf", "unknownnet",
 	"uleafptr", "uleafval", "uleafnc", "uleaffmtold", "uleafformatter", "uleafsafefmt",
 	"rleaf", "risleaf", "prototest", "uoptleaf", "uleafas",
 }
 
 var WrapKinds = []string{
-	"wrap", "wrapf", "withmsg", "withmsgf", "stack", "stackdeep", "hint", "hintf0", "detailf0", "hintf", "detail", "detailf", "safedetails", "stwrap",
+	"wrap", "wrapf", "wrapf0", "withmsg", "withmsgf", "withmsgf0", "safedetailsnofmt", "stack", "stackdeep", "hint", "hintf0", "detailf0", "hintf", "detail", "detailf", "safedetails", "stwrap",
 	"telemetry", "domain", "issuelink", "tags", "assertion", "mark", "secondary", "combine", "wrapferr", "wrapfgosyntax",
 	"handled", "handledmsg", "handledmsgf", "handledmsgf0", "handledsafemsg", "handleddomain", "handleddomainmsg", "domhandled", "handleassert", "assertwrap",
 	"newfw", "newfwsuffix", "httpcode", "grpccode",
@@ -171,6 +171,9 @@ func (g *Cfg) LeafOf(t *rapid.T, k string) *Spec {
 	str := g.Str
 	s := &Spec{K: k}
 	switch k {
+	case "newf0", "assertf0":
+		// a printf-style constructor called with a format only (no arguments)
+		s.S = []string{str(t, "lit")}
 	case "new", "domnew", "goerr", "pkgnew", "uleafas", "uleafptr", "uleafval", "uleafnc", "uleaffmtold", "rleaf", "uoptleaf", "unknownnet":
 		s.S = []string{str(t, "msg")}
 	case "stleaf":
@@ -240,7 +243,10 @@ func (g *Cfg) WrapOf(t *rapid.T, k string, c *Spec) *Spec {
 		// Newf with %w and another error-typed argument.
 		s.S = []string{str(t, "lit")}
 		s.X = []*Spec{nil}
-	case "handledmsgf0", "hintf0", "detailf0":
+	case "safedetailsnofmt":
+		// WithSafeDetails with an empty format and arguments
+		s.S = []string{str(t, "uarg"), str(t, "sarg")}
+	case "handledmsgf0", "hintf0", "detailf0", "wrapf0", "withmsgf0":
 		s.S = []string{str(t, "lit")}
 	case "stwrap":
 		s.S = []string{str(t, "msg")}
